@@ -67,6 +67,10 @@ CLAIMED['C19'] = ('exploration', 'deterministic simulation: seeded SDP record se
     'Four seeded scenario families over real L2CAP on BR/EDR links: SDP client transactions against an independent matcher (every UUID of the pattern, nested sequences, 16/128-bit forms) and attribute filter, for client MTU 48..65535 and 1-3 clients connected and querying at once; AVDTP send_message <-> MessageAssembler in both directions for payloads from 0 to 255 fragments (every packet <= peer MTU, byte-identical reassembly) with a dropped/duplicated/mislabelled fragment on one message of a sequence costing only that message; AVCTP reassembly of spec-conformant fragments from a scripted peer with the same faults; AVDTP configure/open/start/suspend/close/abort sequences (legal and illegal) leaving source and sink in the same state as a reference machine. Sampling, not proof.',
     'Trusted: the reference matcher/filter and fragmenters in props/c19.py; SDP answers needing more than 60 continuation rounds are not compared; codec used to size expected SDP answers. Open findings: AVCTP assembler (fix conflicts with an existing test), no initiator-side Stream.abort.', 'DESIGN.md §5 C19')
 
+CLAIMED['C20'] = ('exploration', 'deterministic simulation: seeded RFCOMM parameters, write patterns and open/close orders with a wire-level frame/credit monitor; HFP feature-set matrix; scripted raw AT lines',
+    'Seeded search over RFCOMM maximum frame size (23..32767) and initial credits (1..7) per side, L2CAP MTU, 1-3 data links, write sizes in both directions at once, closing from either end and re-opening, multiplexer shutdown; an independent frame parser on each sender boundary checks information size <= the receiver announced maximum and data frames <= credits, streams must be byte-identical and complete while there is wire activity, DLC/multiplexer states and tables must correspond after set-up and teardown. HFP: initiate_slc() completes for drawn HF/AG feature subsets, indicator, codec and call-hold sets with both sides holding the same features, indicators, codecs, call-hold set and HF indicators, the AG reporting slc_complete once; every raw AT line (all commands the HF role emits, plus variants with 0-4 extra/missing parameters) is concluded by exactly one OK / ERROR / +CME ERROR. Sampling, not proof.',
+    'Trusted: the frame parser in props/c20.py; negotiated maximum per direction = receiver announced frame size; per-run data volume <= 60 KB (quick).', 'DESIGN.md §5 C20')
+
 NOT_YET = {}
 
 
